@@ -875,6 +875,7 @@ struct Value {
 
     void Merge(Value &&val) {
         if (isUndefined()) {
+            reset();
             setTypeToArray();
         }
 
@@ -898,6 +899,7 @@ struct Value {
 
     void Merge(const Value &val) {
         if (isUndefined()) {
+            reset();
             setTypeToArray();
         }
 
